@@ -113,40 +113,64 @@ Section Dom.
   Variable lenP : Z -> Prop.
   Hypothesis KC : kill_closed P.
   Hypothesis nameP_c : forall n, nameP n -> nameP (cname_of n).
-  Hypothesis lenP_len : forall h o l, obj_len h o = Ok l -> lenP l.
+  Hypothesis P_len : forall o l, P o -> o_data o = DDom l -> lenP l.
   Hypothesis P_dom : forall n l, nameP n -> lenP l -> P (mkObj c n (KDom n l) [KDom n l] true [] (DDom l)).
 
+  (* the `.length` read from a stored domain: every stored length satisfies lenP *)
+  Definition HeapLen (h : list obj) : Prop :=
+    forall i o l, hget h i = Some o -> o_data o = DDom l -> lenP l.
+
+  Lemma heaplen_ext h h' : HeapLen h -> HExt P h h' -> HeapLen h'.
+  Proof.
+    intros HL X i o' l H Ed. destruct (Nat.lt_ge_cases i (length h)) as [L|L].
+    - destruct (proj1 (hget_some_iff h i) L) as [o Ho].
+      destruct (hx_old _ _ _ X i o Ho) as [o2 [H2 Kl]]. rewrite H in H2. injection H2 as <-.
+      destruct Kl as [->| ->]; eapply HL; [exact Ho | exact Ed | exact Ho | exact Ed].
+    - eapply P_len; [eapply (hx_new _ _ _ X); eauto | exact Ed].
+  Qed.
+
+  Lemma heaplen_sext st st' : HeapLen (heap st) -> SExt P st st' -> HeapLen (heap st').
+  Proof. intros HL [_ X]. eapply heaplen_ext; eauto. Qed.
+
+  Lemma lenP_len h o l : HeapLen h -> obj_length h o = Ok l -> lenP l.
+  Proof.
+    intros HL. unfold obj_length. destruct (hget h o) as [ob|] eqn:E; [|discriminate].
+    destruct (o_data ob) eqn:Ed; try discriminate. intros H; injection H as <-. eapply HL; eauto.
+  Qed.
+
   Definition RecX (rec : state -> pstr -> option Z -> state * cout) : Prop :=
-    forall st n l, nameP n -> (forall z, l = Some z -> lenP z) -> SExt P st (fst (rec st n l)).
+    forall st n l, nameP n -> (forall z, l = Some z -> lenP z) -> HeapLen (heap st) ->
+      SExt P st (fst (rec st n l)).
 
   Ltac xt := eapply sext_trans; [exact KC | |].
 
   Lemma sext_dom_nested rec st nm len1 :
-    RecX rec -> nameP nm -> (forall z, len1 = Some z -> lenP z) ->
+    RecX rec -> nameP nm -> (forall z, len1 = Some z -> lenP z) -> HeapLen (heap st) ->
     SExt P st (fst (dom_nested rec st nm len1)) /\
     (forall l2, snd (dom_nested rec st nm len1) = Ok (Some l2) -> lenP l2).
   Proof.
-    intros HR Hn Hl. unfold dom_nested.
+    intros HR Hn Hl HL. unfold dom_nested.
     assert (Hcn : nameP (cname_of nm)) by (apply nameP_c; exact Hn).
     destruct len1 as [l|], (starred nm).
-    - destruct (Z.eqb l 0); [split; [apply sext_refl | intros l2 E; injection E as <-; apply Hl; reflexivity]|].
-      pose proof (HR st (cname_of nm) None Hcn ltac:(discriminate)) as X1.
+    -
+      pose proof (HR st (cname_of nm) None Hcn ltac:(discriminate) HL) as X1.
       destruct (rec st (cname_of nm) None) as [s1 r]. cbn [fst] in X1.
       destruct r as [o b|k e].
-      + destruct (obj_len (heap s1) o) as [cl|k] eqn:EL; cbn [fst snd].
+      + destruct (obj_length (heap s1) o) as [cl|k] eqn:EL; cbn [fst snd].
         * split; [xt; [exact X1 | apply sext_collect]|].
           destruct (Z.eqb cl l); intros l2 E; [injection E as <-; apply Hl; reflexivity | discriminate].
         * split; [xt; [exact X1 | apply sext_collect] | discriminate].
       + destruct (is_singleton_err k); cbn [fst snd].
         * split; [xt; [exact X1 | apply sext_collect] | intros l2 E; injection E as <-; apply Hl; reflexivity].
         * split; [exact X1 | discriminate].
-    - destruct (Z.eqb l 0); [split; [apply sext_refl | intros l2 E; injection E as <-; apply Hl; reflexivity]|].
-      pose proof (HR st (cname_of nm) None Hcn ltac:(discriminate)) as X1.
+    -
+      pose proof (HR st (cname_of nm) None Hcn ltac:(discriminate) HL) as X1.
       destruct (rec st (cname_of nm) None) as [s1 r]. cbn [fst] in X1.
       destruct r as [o b|k e].
-      + destruct (obj_len (heap s1) o) as [cl|k] eqn:EL; cbn [fst snd].
+      + destruct (obj_length (heap s1) o) as [cl|k] eqn:EL; cbn [fst snd].
         * pose proof (HR (collect s1) (cname_of nm) (Some l) Hcn
-                         ltac:(intros z E; injection E as <-; apply Hl; reflexivity)) as X2.
+                         ltac:(intros z E; injection E as <-; apply Hl; reflexivity)
+                         ltac:(eapply heaplen_sext; [eapply heaplen_sext; [exact HL | exact X1] | apply sext_collect])) as X2.
           destruct (rec (collect s1) (cname_of nm) (Some l)) as [s2 r2]. cbn [fst] in X2.
           assert (X12 : SExt P st s2) by (xt; [xt; [exact X1 | apply sext_collect] | exact X2]).
           destruct r2 as [o2 b2|k2 e2]; cbn [fst snd].
@@ -159,11 +183,11 @@ Section Dom.
       + destruct (is_singleton_err k); cbn [fst snd].
         * split; [xt; [exact X1 | apply sext_collect] | intros l2 E; injection E as <-; apply Hl; reflexivity].
         * split; [exact X1 | discriminate].
-    - pose proof (HR st (cname_of nm) None Hcn ltac:(discriminate)) as X1.
+    - pose proof (HR st (cname_of nm) None Hcn ltac:(discriminate) HL) as X1.
       destruct (rec st (cname_of nm) None) as [s1 r]. cbn [fst] in X1.
       destruct r as [o b|k e].
-      + destruct (obj_len (heap s1) o) as [cl|k] eqn:EL; cbn [fst snd].
-        * split; [xt; [exact X1 | apply sext_collect] | intros l2 E; injection E as <-; eapply lenP_len; eauto].
+      + destruct (obj_length (heap s1) o) as [cl|k] eqn:EL; cbn [fst snd].
+        * split; [xt; [exact X1 | apply sext_collect] | intros l2 E; injection E as <-; eapply lenP_len; [eapply heaplen_sext; [exact HL | exact X1] | exact EL]].
         * split; [xt; [exact X1 | apply sext_collect] | discriminate].
       + destruct (is_singleton_err k); cbn [fst snd].
         * split; [xt; [exact X1 | apply sext_collect] | discriminate].
@@ -184,14 +208,14 @@ Section Dom.
   Proof. unfold dom_len1. destruct l; reflexivity. Qed.
 
   Lemma sext_dom_body rec st nm len :
-    RecX rec -> nameP nm -> (forall z, len = Some z -> lenP z) ->
+    RecX rec -> nameP nm -> (forall z, len = Some z -> lenP z) -> HeapLen (heap st) ->
     SExt P st (fst (dom_body rec ct c st (Some nm) len None None)).
   Proof.
-    intros HR Hn Hl. unfold dom_body.
+    intros HR Hn Hl HL. unfold dom_body.
     destruct (nth_error ct c) as [ci|]; [|apply sext_refl].
     cbn [resolve_name]. rewrite dom_len1_none.
     destruct (negb (nonempty nm)); [apply sext_refl|].
-    destruct (sext_dom_nested rec st nm len HR Hn Hl) as [X1 L1].
+    destruct (sext_dom_nested rec st nm len HR Hn Hl HL) as [X1 L1].
     destruct (dom_nested rec st nm len) as [st1 rl]. cbn [fst snd] in *.
     destruct rl as [len2|k]; [|exact X1].
     xt; [exact X1|]. apply sext_dom_finish; [exact Hn|].
@@ -199,11 +223,11 @@ Section Dom.
   Qed.
 
   Theorem sext_dom_call fuel st nm len :
-    nameP nm -> (forall z, len = Some z -> lenP z) ->
+    nameP nm -> (forall z, len = Some z -> lenP z) -> HeapLen (heap st) ->
     SExt P st (fst (dom_call fuel ct c st (Some nm) len None None)).
   Proof.
-    revert st nm len. induction fuel as [|f IH]; intros st nm len Hn Hl; [apply sext_refl|].
-    cbn [dom_call]. apply sext_dom_body; [|exact Hn|exact Hl]. intros st' n l Hn' Hl'. apply IH; auto.
+    revert st nm len. induction fuel as [|f IH]; intros st nm len Hn Hl HL; [apply sext_refl|].
+    cbn [dom_call]. apply sext_dom_body; [|exact Hn|exact Hl|exact HL]. intros st' n l Hn' Hl' HL'. apply IH; auto.
   Qed.
 End Dom.
 
